@@ -7,4 +7,20 @@ def run(tier):
                           extra_entries=("H_C06_Send", "H_C06_Seq"))
     c.assumptions.append("json.RawMessage values are real byte slices in the encoding (capacity 3, symbolic content) and a decode into an existing RawMessage reuses its backing array as encoding/json does: aliasing between buffered payloads and a reused decode target is visible (H_C06_Seq, 3 consecutive frames)")
     c.assumptions.append("NET-FIFO: the websocket delivers frames in order, once, or closes; payload fidelity of the wire encoding is C07")
+    # sender side below the SHIP connection: a burst of datagrams while the transport is stalled, connection open
+    import lib
+    import wsutil
+    cuts = dict(lib.SHIP_CUTS)
+    cuts.update(wsutil.WS_CUTS)
+    n = 80 if tier == "thorough" else 40
+    res, meta = lib.run_engine("ws", ["H_C06_Burst"], sched="explore", preempt=0, cuts=cuts, loop=400, extra=["-param", "burst=%d" % n], deadline=600)
+    c.add_run("sender-burst", res, meta)
+    c.bounds["burst_datagrams_while_transport_stalled"] = n
+    c.assumptions.append("sender burst (H_C06_Burst): the real websocket layer, one writer handing over N datagrams while the transport write is stalled, then the transport continues; the connection stays open: no write is refused, all N frames reach the transport in order (round-robin schedule; concurrent writers and closures are C12). Native twin: a completed SHIP connection over a loopback websocket whose socket blocks writes until released, 120 datagrams")
+    for e, r in (res or {}).items():
+        if not r["covers"].get("c06.burst.end"):
+            c.covers_missing.append(e + ":c06.burst.end")
+        for v in r["violations"] or []:
+            if v["kind"] in ("panic", "deadlock") or (v["kind"] == "assert" and v["id"].startswith("C06.")):
+                c.handle("ws", "H_C06_Burst_Native", dict(v, draws=[]), hang_s=60, expect={"any": ["VERIF-ASSERT-FAILED", "VERIF-PANIC", "VERIF-HANG"]})
     return c.finish()
